@@ -88,9 +88,32 @@ Fixpoint copy_sparse (fuel : nat) (bs len pos : N) (sd sh : N -> seek_ans) (ans 
       match next_segment sd sh len pos with
       | inr e => mkOut (StErr e) [] ans
       | inl (d, h) =>
+          if (h <=? pos) || (h <? d) then mkOut (StErr EPREMATURE) [] ans   (* the source shrank: fail, do not spin *)
+          else
           let r := copy_bytes (S (length ans)) bs (h - d) 0 d ans in
           match o_st r with
           | StOk => out_app (o_trace r) (copy_sparse f bs len h sd sh (o_rest r))
+          | _ => r
+          end
+      end
+  end.
+
+(* As before repair 61ae7c3 (no progress guard).  The seek answers are the environment's: a source truncated to T <= pos
+   while it is being copied makes SEEK_DATA answer ENXIO and the fstat that follows answer T, which next_segment turns
+   into the pair (T, T) exactly as `SkOff T` would — so arbitrary answer functions cover that case.  Kept to state why
+   the repair was needed (CopyLoopProofs.copy_sparse_pinned_spins). *)
+Fixpoint copy_sparse_pinned (fuel : nat) (bs len pos : N) (sd sh : N -> seek_ans) (ans : list xans)
+  : loop_out :=
+  if len <=? pos then mkOut StOk [] ans else
+  match fuel with
+  | O => mkOut StOutOfFuel [] ans
+  | S f =>
+      match next_segment sd sh len pos with
+      | inr e => mkOut (StErr e) [] ans
+      | inl (d, h) =>
+          let r := copy_bytes (S (length ans)) bs (h - d) 0 d ans in
+          match o_st r with
+          | StOk => out_app (o_trace r) (copy_sparse_pinned f bs len h sd sh (o_rest r))
           | _ => r
           end
       end
